@@ -57,4 +57,18 @@ theorem stray_hypotheses :
     opensFirst (r 2 [t 3 "stray"]) = true ∧ flatInline (r 2 [t 3 "stray"]) = true := by
   decide +kernel
 
+/-- an italic run OUTSIDE every paragraph holding text, a text box, and text again -/
+def boxDoc : Xml :=
+  el 0 "body" [] none [p 1 [r 2 [t 3 "a"]],
+    el 4 "r" [] none [el 5 "rPr" [] none [el 6 "i" [] none []], t 7 "pre ",
+      el 8 "txbxContent" [] none [p 9 [r 10 [t 11 "boxed"]]], t 12 " post"],
+    p 13 [r 14 [t 15 "b"]]]
+
+/-- **C07-text-after-text-box-in-implicit-run**: everything is in document order (13.30), but the text after the
+box starts an unformatted run in a new implicit paragraph (and closing the run leaves an empty one behind) -/
+theorem C07_finding_text_after_box :
+    (newDepthCollector cfgFindingsHtml [] boxDoc >>= runStrs) =
+      .ok [[lit "a"], [lit "<i>pre </i>"], [lit "boxed"], [lit " post"], [], [lit "b"]] := by
+  decide +kernel
+
 end D2P.Ex
